@@ -491,6 +491,12 @@ class Run:
                         elif op.get("by") == "str" and isinstance(pv, int):
                             arg = hex(pv) if pv >= 0 else str(pv)
                         label += f"({r['name']}.{b['uid']}, {arg!r})"
+                        named = [e for e in b.get("enums", []) if isinstance(arg, str) and e[0] == arg]
+                        if named:
+                            # the string is the name of an enum of this field: the name wins over its numeric reading
+                            stored = named[0][1] >> sh
+                            fits = True
+                            self.probe("enum_name_looks_like_number")
                         res = self.attempt(lambda: bf.set_enum_value(arg), fits, label, site)
                     if res == "ok" and fits:
                         m.bf_store(r, bi, stored)
@@ -516,6 +522,40 @@ class Run:
                 if data2 != data:
                     self.violation("export-parse", "re-export", f"{label}: exporting the parsed twin gives different bytes")
                 self.probe("export_parse")
+            elif name == "parse_short":
+                data = obj.export()
+                tops = []
+                for kind, item in m.top_level():
+                    if kind == "reg":
+                        tops.append((item["offset"], item["width"] // 8, [item["uid"]]))
+                    else:
+                        tops.append((m.leaf[item["sub_regs"][0]]["offset"], m.group_width(item) // 8, list(item["sub_regs"])))
+                if op.get("inside"):
+                    off, nb, _u = tops[op["r"] % len(tops)]
+                    n = off + (op["r"] >> 8) % nb if nb > 1 else off
+                else:
+                    n = op["r"] % (len(data) + 1)
+                n = min(n, len(data))
+                # a short input sets the registers it contains completely and leaves the others alone
+                want = Model(layout)
+                for off, nb, uids in tops:
+                    if n < off + nb:
+                        break
+                    for u in uids:
+                        want.val[u] = m.val[u]
+                twin = make_registers(layout)
+                label += f"({n} of {len(data)} bytes)"
+                try:
+                    twin.parse(data[:n])
+                    for site, msg in compare(twin, want, f"{label}: fresh twin after parsing a prefix of the export"):
+                        self.violation("parse-short", site, msg)
+                    obj.parse(data[:n])  # into the object itself: nothing may change
+                except R.SPSDKError as exc:
+                    self.violation("parse-short", "rejected", f"{label}: parsing a prefix of the export raised {type(exc).__name__}: {exc}")
+                    obj = self.rebuild(layout, m)
+                if any(off < n < off + nb for off, nb, _u in tops):
+                    self.probe("parse_cut_inside_register")
+                self.probe("parse_short")
             elif name == "config_roundtrip":
                 diff = bool(op.get("diff"))
                 cfg = obj.get_config(diff=diff)
@@ -678,6 +718,10 @@ def gen_bitfields(rng: random.Random, width: int, prefix: str, allow_reset: bool
                 n = rng.randint(1, min(4, 1 << w))
                 vals = rng.sample(range(1 << w), n) if (1 << w) <= 4096 else [rng.randrange(1 << w) for _ in range(n)]
                 b["enums"] = [[f"E{j}_{prefix}_{i}", v] for j, v in enumerate(sorted(set(vals)))]
+                if rng.random() < 0.25:
+                    # names that look like decimal numbers (divider ratios, sizes: "128" = 0), as in the shipped fuse databases
+                    nums = rng.sample([1, 2, 3, 4, 8, 16, 32, 64, 128, 256, 0, 5, 10, 100], len(b["enums"]))
+                    b["enums"] = [[str(nm), e[1]] for nm, e in zip(nums, b["enums"])]
             if rng.random() < 0.08 and w >= 2 and not b.get("enums"):
                 b["shift"] = rng.choice([1, 2, 4])
         if rng.random() < 0.3 and not b.get("shift") and allow_reset:
@@ -743,7 +787,7 @@ def gen_val(rng: random.Random) -> list:
 
 
 def gen_op(rng: random.Random) -> dict:
-    name = rng.choice(["reg_set"] * 5 + ["group_set"] * 3 + ["alt_set"] * 2 + ["bf_set"] * 6 + ["bf_enum"] * 4 + ["reg_reset", "reset_all"] + ["export_parse"] * 2 + ["config_roundtrip"] * 2 + ["query"] * 5)
+    name = rng.choice(["reg_set"] * 5 + ["group_set"] * 3 + ["alt_set"] * 2 + ["bf_set"] * 6 + ["bf_enum"] * 4 + ["reg_reset", "reset_all"] + ["export_parse"] * 2 + ["parse_short"] * 2 + ["config_roundtrip"] * 2 + ["query"] * 5)
     o: dict = {"op": name}
     if name == "reg_set":
         o.update(reg=rng.randrange(64), val=gen_val(rng), raw=rng.random() < 0.5)
@@ -757,6 +801,8 @@ def gen_op(rng: random.Random) -> dict:
         o.update(reg=rng.randrange(64), bf=rng.randrange(64), by=rng.choice(["name", "name", "int", "str", "rawstr"]), e=rng.randrange(8), val=gen_val(rng))
     elif name == "reg_reset":
         o.update(reg=rng.randrange(64))
+    elif name == "parse_short":
+        o.update(r=rng.randrange(1 << 30), inside=rng.random() < 0.6)
     elif name == "config_roundtrip":
         o.update(diff=rng.random() < 0.4)
     elif name == "query":
